@@ -1,0 +1,9 @@
+//go:build verif
+
+// Contracts for package transport, checked by /verif (bfvc). Comment-only.
+package transport
+
+//@ ifacegetters LookupTransport
+
+//@ func (*lookupTransport).IsEquivalent
+//@   ensures ret ==> samegetters(d, other, LookupTransport)
